@@ -352,8 +352,14 @@ def mon_c20(cases):
         revoked_any = bool(c.get("revs"))
         loads = {}     # (cache, key id, created) -> last load time
         kdec = {}      # (factory, sk id, created) -> last KMS unwrap time
+        known = {}     # as loads, but forgotten whenever a faulted operation may have touched the caches (third clause)
+        parents = []   # per successful encrypt: intermediate key (id, created) of the record
         for i, (op, ob) in enumerate(zip(c["ops"], c["obs"])):
             ctx.feed(op, ob)
+            if op["k"] == "encrypt" and ob["r"] == "enc":
+                parents.append((ob["pid"], ob["pc"]))
+            if op["k"] in ("encrypt", "decrypt") and op.get("faults"):
+                known.clear()
             if op["k"] not in ("encrypt", "decrypt") or op.get("faults"):
                 continue
             sid = op.get("s", 0)
@@ -367,10 +373,28 @@ def mon_c20(cases):
             simple = p["CacheSK"] and p["CacheIK"] and p["SKPol"] in ("", "simple") and p["IKPol"] in ("", "simple")
             if not simple or revoked_any:
                 continue
+            # "after the interval the next use re-reads the key's record once before using it"
+            used = None
+            if op["k"] == "encrypt" and ob["r"] == "enc":
+                used = (ob["pid"], ob["pc"])
+            elif op["k"] == "decrypt" and ob["r"] == "dec" and not op.get("muts") and op.get("rec", 0) < len(parents):
+                used = parents[op.get("rec", 0)]
+            if used is not None:
+                ukey = (ctx.cache_of(sid), used[0], used[1])
+                t0 = known.get(ukey)
+                reread = any(e["k"] in ("MLoad", "MLoadLatest") and (e.get("a") or [None])[0] == used[0] for e in ev_list(ob))
+                if t0 is not None and t > t0 + p["RCI"] and not reread:
+                    yield dict(what="intermediate key used %d ns after its last load (revoke-check interval %d ns) without re-reading its record from the metastore" % (
+                        t - t0, p["RCI"]), case=ci, op=i, finding=None)
             prev = None
             adopted_latest = {}
             for e in ev_list(ob):
                 a = e.get("a") or []
+                if e["k"] == "MLoad" and a[2] == "some" or e["k"] == "MLoadLatest" and a[1] == "some":
+                    cr = a[1] if e["k"] == "MLoad" else a[2]
+                    known[(ctx.cache_of(sid) if hx(a[0]).startswith("_IK_") else ("f", f), a[0], cr)] = t
+                if e["k"] == "MStore" and a[-1] is True and ob["r"] == "enc":
+                    known[(ctx.cache_of(sid) if hx(a[0]).startswith("_IK_") else ("f", f), a[0], a[1])] = t
                 if e["k"] == "KDec" and a[0] and prev is not None:
                     key = (f,) + prev
                     if key in kdec and t <= kdec[key] + p["RCI"] and prev[1] * SEC + p["Expire"] >= t:
